@@ -295,6 +295,7 @@ func c11StabilityScenario(variant int, obs *string) vsched.Scenario {
 			}
 		}
 		var walEntries []types.Entry
+		var decoded []types.Entry
 		var w *wal.WAL
 		main := func() {
 			vos.MkdirAll("/w", 0o755)
@@ -373,6 +374,11 @@ func c11StabilityScenario(variant int, obs *string) vsched.Scenario {
 				b, err := d.Encode()
 				if err == nil {
 					keep("Data.Encode(e2)", b, decData(e2))
+					// what a decoder hands out must stay intact as well (values must not alias pooled memory)
+					var dd table.Data
+					if dd.Decode(append([]byte(nil), b...)) == nil {
+						decoded = dd.Entries
+					}
 				}
 				vsched.Yield("encB.between")
 				if err := w.Write(e2...); err == nil {
@@ -394,6 +400,10 @@ func c11StabilityScenario(variant int, obs *string) vsched.Scenario {
 						return
 					}
 				}
+			}
+			if decoded != nil && !c11Same(decoded, e2) {
+				verr = oerr("c11/unstable-decoded/Data.Decode", "entries handed out by Data.Decode changed after later encoder / wal activity")
+				return
 			}
 			got, err := w.Read()
 			if err != nil || !c11Same(walEntries, got) {
